@@ -128,8 +128,8 @@ Proof.
   - destruct (load_plugin_module lower world n 0); try exact Ha.
     pose proof (load_plugin_class_alive s p false o Hx Ha) as H.
     destruct (load_plugin_class lower s p false o). exact H.
-  - unfold owner_load. destruct (get_callback lower (s_cbs s) n); [exact Ha|].
-    destruct (load_plugin_module lower world n imp); try exact Ha.
+  - unfold owner_load. cbv zeta. destruct (get_callback lower (s_cbs s) (strip_py n)); [exact Ha|].
+    destruct (load_plugin_module lower world (strip_py n) imp); try exact Ha.
     pose proof (load_plugin_class_alive s p initf o Hx Ha) as H.
     destruct (load_plugin_class lower s p initf o). exact H.
   - unfold owner_unload. destruct (is_owner lower n); [exact Ha|].
@@ -144,7 +144,7 @@ Proof.
     pose proof (alive_readd o (s_next s) n (s_cbs s) (s_dead s) Hx Ha) as Hr.
     destruct (filter (name_is lower n) (s_cbs s)) as [|b0 bt] eqn:Eb.
     { simpl in Hk. rewrite app_nil_r in Hk. exact Hk. }
-    destruct (load_plugin_module lower world n imp).
+    destruct (reload_module lower world n imp).
     + pose proof (load_plugin_class_alive
                     (St (filter (fun x => negb (name_is lower n x)) (s_cbs s)) (s_next s) (s_dead s ++ ids (b0 :: bt)))
                     p initf o Hx Hk) as H.
@@ -169,9 +169,7 @@ Proof.
   intros Himp E. unfold owner_reload in E. destruct (is_owner lower n); [inversion E; reflexivity|].
   destruct (remove_callback lower (s_cbs s) n) as [bad gd].
   destruct bad as [|b0 bt]; [inversion E; reflexivity|].
-  unfold load_plugin_module in E. destruct (find_spec lower world n) as [p|].
-  - destruct imp as [|[q|q|]]; [congruence| | |];
-      destruct (readd lower o gd (b0 :: bt)) as [l' res]; inversion E; reflexivity.
-  - destruct (readd lower o gd (b0 :: bt)) as [l' res]; inversion E; reflexivity.
+  destruct (reload_module_fails lower world n imp Himp) as [Em|Em]; rewrite Em in E;
+    destruct (readd lower o gd (b0 :: bt)) as [l' res]; inversion E; reflexivity.
 Qed.
 End Alive.
